@@ -61,8 +61,60 @@ Definition run_solver (s : sexp) : sexp :=
   | _ => bad_case
   end.
 
+(** entry 2 (RestartPBESolver around a naive or cut-off sub-solver):
+             case = [kind (0 naive / 1 cut-off); skip list; criterion; list of tasks]
+             criterion = [0; k]  len(self._data) - self._last_size > k
+                       | [1; m]  self._programs % m == 0   (m >= 1)
+                       | [2; m]  len(self._data) >= m
+             task = [examples; streams; answers]   (stream 0: the enumerator given to solve,
+                                                    stream i+1: the one returned by the i-th clone())
+             result = [main; pinned], each a list with one item per task (one solver object):
+                      [events; 'programs' statistic; 'restarts' statistic; programs drawn; programs tested;
+                       numbers of programs tested when the restarts happened; data = list of (k num den)]
+                      with event (0 k) = yield of the k-th drawn program;
+                      [pinned] is the loop before repair C10b-1 (RuntimeError, code 100, on exhaustion). *)
+From PS Require Import Sem.SolverRestart.
+
+Definition rtask_of_sexp (s : sexp) : option rtask :=
+  match s with
+  | L [exs; streams; answers] =>
+    do exs' <- asListOf example_of_sexp exs;
+    do streams' <- asListOf (asListOf prog_of_sexp) streams;
+    do answers' <- asListOf answer_of_sexp answers;
+    Some (exs', streams', answers')
+  | _ => None
+  end.
+
+Definition sexp_of_datum (d : nat * score) : sexp :=
+  L [ofNat (fst d); ofNat (fst (snd d)); ofNat (snd (snd d))].
+
+Definition sexp_of_rtask_result (r : list event * rsolver) : sexp :=
+  let s := snd r in
+  L [L (map sexp_of_event (fst r)); ofNat (rtotal s); ofNat (rtotal_restarts s);
+     L (map sexp_of_prog (rdrawn s)); L (map sexp_of_prog (rtested s));
+     L (map ofNat (rcuts s)); L (map sexp_of_datum (rdata s))].
+
+Definition run_restart (s : sexp) : sexp :=
+  match s with
+  | L [kind; sk; L [c; n]; ts] =>
+    match asZ kind, asListOf asN sk, asNat c, asNat n, asListOf rtask_of_sexp ts with
+    | Some k, Some sk', Some c', Some n', Some ts' =>
+      let go (kd : solver_kind) (fixed : bool) :=
+          L (map sexp_of_rtask_result
+                 (rrun_tasks vapp prim_value sk' value_pyeq never (crit_of c' n') fixed kd r_new ts')) in
+      match k with
+      | 0 => L [go Naive true; go Naive false]
+      | 1 => L [go Cutoff true; go Cutoff false]
+      | _ => bad_case
+      end
+    | _, _, _, _, _ => bad_case
+    end
+  | _ => bad_case
+  end.
+
 Definition run_case (entry : Z) (s : sexp) : sexp :=
   match entry with
   | 1 => run_solver s
+  | 2 => run_restart s
   | _ => bad_case
   end.
